@@ -1,6 +1,7 @@
 """General utilities usable by any other GTIRB submoudle."""
 
 import itertools
+import operator
 import typing
 
 import intervaltree
@@ -100,8 +101,8 @@ class ListWrapper(typing.MutableSequence[T]):
                     "to extended slice of size %d"
                     % (len(values), len(indices))
                 )
-        elif -len(self._data) <= i.__index__() < len(self._data):
-            indices = range(i.__index__(), i.__index__() + 1)
+        elif -len(self._data) <= operator.index(i) < len(self._data):
+            indices = range(operator.index(i), operator.index(i) + 1)
             values = [typing.cast(T, v)]
         else:
             raise IndexError("list assignment index out of range")
@@ -135,9 +136,23 @@ class ListWrapper(typing.MutableSequence[T]):
     def __len__(self) -> int:
         return len(self._data)
 
+    @staticmethod
+    def _check_index(i: int) -> None:
+        # list.insert and list.pop convert their index before anything else
+        # happens: OverflowError beyond the machine word, TypeError for a
+        # non-integer. Let a scratch list raise exactly that while nothing
+        # has been touched yet (the ownership hooks run before the backing
+        # list is updated).
+        [].insert(i, None)
+
     def insert(self, i: int, v: T) -> None:
+        self._check_index(i)
         self._add(v)
         return self._data.insert(i, v)
+
+    def pop(self, i: int = -1) -> T:
+        self._check_index(i)
+        return super().pop(i)
 
     # The version of typing.py which comes with python 3.5.2 doesn't provide
     # definitions for append or remove on MutableList, so we have to do it
